@@ -266,8 +266,7 @@ Definition expected_nbtArgs : cfun17 :=
 Definition expected_Message_UnmarshalNBT : cfun17 :=
   ("func (m *Message) UnmarshalNBT(tagType byte, r nbt.DecoderReader) error",
    [
-     CText "tagReader := bytes.NewReader([]byte{tagType})";
-     CText "decoder := nbt.NewDecoder(io.MultiReader(tagReader, r))";
+     CText "decoder := nbt.NewDecoder(nestedReader(tagType, r))";
      CText "decoder.NetworkFormat(true)";
      CSwitch "" "tagType" [
       (["nbt.TagString"], [
@@ -286,8 +285,7 @@ Definition expected_Message_UnmarshalNBT : cfun17 :=
 Definition expected_TranslateArgs_UnmarshalNBT : cfun17 :=
   ("func (t *TranslateArgs) UnmarshalNBT(tagType byte, r nbt.DecoderReader) error",
    [
-     CText "tagReader := bytes.NewReader([]byte{tagType})";
-     CText "decoder := nbt.NewDecoder(io.MultiReader(tagReader, r))";
+     CText "decoder := nbt.NewDecoder(nestedReader(tagType, r))";
      CText "decoder.NetworkFormat(true)";
      CSwitch "" "tagType" [
       (["nbt.TagList"], [
